@@ -153,6 +153,68 @@ theorem fftF_dft (A : Arith R) (hA : RingOps A) (ρ : R) (rd : ℕ → R) (maxN 
 
 end Exact
 
+
+section Algebra2
+variable {R : Type} [CommRing R]
+
+theorem dft_congr (ρ : R) (N : ℕ) (x y : ℕ → R) (h : ∀ s, s < N → x s = y s) (k : ℕ) : dft ρ N x k = dft ρ N y k := by
+  unfold dft
+  exact sum_congr rfl (fun s hs => by rw [h s (mem_range.1 hs)])
+
+theorem dft_lin (ρ c : R) (N : ℕ) (x y : ℕ → R) (k : ℕ) :
+    dft ρ N (fun s => x s + c * y s) k = dft ρ N x k + c * dft ρ N y k := by
+  unfold dft
+  rw [mul_sum, ← sum_add_distrib]
+  exact sum_congr rfl (fun s _ => by ring)
+
+theorem sumTo_eq_sum (n : ℕ) (f : ℕ → ℤ) : sumTo n f = ∑ s ∈ range n, f s := by
+  induction n with
+  | zero => rfl
+  | succ n ih => rw [sumTo, ih, sum_range_succ]
+
+/-- Convolution theorem for finite sequences (no wrap-around: `la + lb - 1 ≤ n`), any `ρ`. -/
+theorem dft_conv (ρ : R) (n la lb : ℕ) (hla : 0 < la) (hlb : 0 < lb) (hn : la + lb - 1 ≤ n) (x y : ℕ → R)
+    (hx : ∀ s, la ≤ s → x s = 0) (hy : ∀ t, lb ≤ t → y t = 0) (k : ℕ) :
+    dft ρ n x k * dft ρ n y k
+      = dft ρ n (fun u => ∑ s ∈ range la, if s ≤ u ∧ u - s < lb then x s * y (u - s) else 0) k := by
+  unfold dft
+  -- truncate the two factors to their supports
+  have tx : ∑ s ∈ range n, x s * ρ ^ (k * s) = ∑ s ∈ range la, x s * ρ ^ (k * s) := by
+    symm
+    apply sum_subset (fun a ha => by simp only [mem_range] at ha ⊢; omega)
+    intro s _ hs
+    rw [hx s (by simpa using hs), zero_mul]
+  have ty : ∑ t ∈ range n, y t * ρ ^ (k * t) = ∑ t ∈ range lb, y t * ρ ^ (k * t) := by
+    symm
+    apply sum_subset (fun a ha => by simp only [mem_range] at ha ⊢; omega)
+    intro t _ ht
+    rw [hy t (by simpa using ht), zero_mul]
+  rw [tx, ty, sum_mul_sum]
+  -- right-hand side: swap the sums, then substitute u = s + t
+  have rhs : ∑ u ∈ range n, (∑ s ∈ range la, if s ≤ u ∧ u - s < lb then x s * y (u - s) else 0) * ρ ^ (k * u)
+      = ∑ s ∈ range la, ∑ u ∈ range n, if s ≤ u ∧ u - s < lb then x s * y (u - s) * ρ ^ (k * u) else 0 := by
+    rw [sum_comm]
+    apply sum_congr rfl; intro u _
+    rw [sum_mul]
+    apply sum_congr rfl; intro s _
+    split <;> simp
+  rw [rhs]
+  apply sum_congr rfl
+  intro s hs
+  have hs' : s < la := mem_range.1 hs
+  rw [← sum_filter]
+  have hfil : (range n).filter (fun u => s ≤ u ∧ u - s < lb) = Ico s (s + lb) := by
+    ext u
+    simp only [mem_filter, mem_range, mem_Ico]
+    omega
+  rw [hfil, sum_Ico_eq_sum_range, Nat.add_sub_cancel_left]
+  apply sum_congr rfl
+  intro t _
+  rw [Nat.add_sub_cancel_left, mul_add, pow_add]
+  ring
+
+end Algebra2
+
 section ComplexInstance
 open Complex
 
@@ -293,6 +355,307 @@ theorem fftRef_dft (m : ℕ) (inv : Bool) (v : Array ℂ) (hv : v.size = 2^m) :
       (fun m' h => by subst h; exact zeta_inv_half m') (fun t j ht hj => stageTw_inv m t j ht hj) _ p hp]
     simp only [if_true]
     rfl
+
+
+theorem zeta_primitive (k : ℕ) : IsPrimitiveRoot (zeta k) (2^k) :=
+  Complex.isPrimitiveRoot_exp (2^k) (Nat.two_pow_pos k).ne'
+
+theorem zeta_ne_zero (k : ℕ) : zeta k ≠ 0 := by unfold zeta; exact exp_ne_zero _
+
+theorem conj_zeta (k : ℕ) : (starRingEnd ℂ) (zeta k) = (zeta k)⁻¹ := by
+  unfold zeta
+  rw [← exp_conj, ← exp_neg]
+  congr 1
+  rw [map_div₀, map_mul, map_mul, conj_I, conj_ofReal, map_ofNat, map_natCast]
+  ring
+
+/-- Fourier inversion on `2^k` points. -/
+theorem dft_inversion (k : ℕ) (x : ℕ → ℂ) (q : ℕ) (hq : q < 2^k) :
+    dft (zeta k)⁻¹ (2^k) (fun p => dft (zeta k) (2^k) x p) q * (1 / ((2^k : ℕ) : ℂ)) = x q := by
+  unfold dft
+  have hN : ((2^k : ℕ) : ℂ) ≠ 0 := by exact_mod_cast (Nat.two_pow_pos k).ne'
+  have hz := zeta_ne_zero k
+  -- swap the sums
+  have sw : ∑ p ∈ range (2^k), (∑ t ∈ range (2^k), x t * zeta k ^ (p * t)) * (zeta k)⁻¹ ^ (q * p)
+      = ∑ t ∈ range (2^k), x t * ∑ p ∈ range (2^k), (zeta k ^ t * (zeta k)⁻¹ ^ q) ^ p := by
+    simp_rw [sum_mul, mul_sum]
+    rw [sum_comm]
+    apply sum_congr rfl; intro t _
+    apply sum_congr rfl; intro p _
+    rw [mul_pow, ← pow_mul, ← pow_mul, mul_comm t p, mul_comm q p]
+    ring
+  rw [sw]
+  have inner : ∀ t, t < 2^k → ∑ p ∈ range (2^k), (zeta k ^ t * (zeta k)⁻¹ ^ q) ^ p = if t = q then ((2^k : ℕ) : ℂ) else 0 := by
+    intro t ht
+    by_cases htq : t = q
+    · subst htq
+      rw [if_pos rfl, inv_pow, mul_inv_cancel₀ (pow_ne_zero _ hz)]
+      simp
+    · rw [if_neg htq]
+      set y := zeta k ^ t * (zeta k)⁻¹ ^ q with hy
+      have hy1 : y ≠ 1 := by
+        intro h1
+        apply htq
+        apply (zeta_primitive k).pow_inj ht hq
+        rw [hy, inv_pow, mul_inv_eq_one₀ (pow_ne_zero _ hz)] at h1
+        exact h1
+      have hyN : y ^ (2^k) = 1 := by
+        rw [hy, mul_pow, pow_right_comm, zeta_pow_two_pow, one_pow, pow_right_comm, inv_pow, zeta_pow_two_pow,
+          inv_one, one_pow, mul_one]
+      have := mul_geom_sum y (2^k)
+      rw [hyN, sub_self] at this
+      rcases mul_eq_zero.1 this with h | h
+      · exact absurd (sub_eq_zero.1 h) hy1
+      · exact h
+  rw [sum_congr rfl (fun t ht => by rw [inner t (mem_range.1 ht)])]
+  simp only [mul_ite, mul_zero]
+  rw [sum_ite_eq' (range (2^k)) q, if_pos (mem_range.2 hq)]
+  field_simp
+
+/-- Conjugate symmetry of the transform of a REAL sequence (here: integers). -/
+theorem dft_conj_int (k : ℕ) (r : ℕ → ℤ) (j : ℕ) (hj : j < 2^k) :
+    (starRingEnd ℂ) (dft (zeta k) (2^k) (fun s => ((r s : ℤ) : ℂ)) (negIdx (2^k) j)) = dft (zeta k) (2^k) (fun s => ((r s : ℤ) : ℂ)) j := by
+  unfold dft
+  rw [map_sum]
+  apply sum_congr rfl
+  intro s _
+  rw [map_mul, map_pow, conj_zeta, map_intCast]
+  congr 1
+  have hz := zeta_ne_zero k
+  unfold negIdx
+  by_cases h0 : j = 0
+  · subst h0; simp
+  · rw [if_neg h0, inv_pow]
+    apply inv_eq_of_mul_eq_one_left
+    rw [← pow_add, ← Nat.add_mul, Nat.add_sub_cancel' (by omega), pow_mul, zeta_pow_two_pow, one_pow]
+
+
+/-- coefficient `s` of an `i32` vector as a complex number (0 beyond the end) -/
+noncomputable def cz (a : Array Int) (s : ℕ) : ℂ := ((a.getD s 0 : ℤ) : ℂ)
+
+theorem getD_of_le (a : Array Int) (p : ℕ) (h : a.size ≤ p) : a.getD p 0 = 0 := by
+  rw [Array.getD_eq_getD_getElem?, Array.getElem?_eq_none h]; rfl
+
+theorem cz_of_le (a : Array Int) (p : ℕ) (h : a.size ≤ p) : cz a p = 0 := by
+  unfold cz; rw [getD_of_le a p h]; simp
+
+/-- the packed input buffer `a + i·b` -/
+theorem packed_spec (a b : Array Int) (n : ℕ) :
+    (fillIm arithC b (fillRe arithC a (Array.replicate n arithC.zero))).size = n ∧
+    ∀ p, p < n → rdA arithC (fillIm arithC b (fillRe arithC a (Array.replicate n arithC.zero))) p
+      = cz a p + I * cz b p := by
+  obtain ⟨r1, r2⟩ := fillRe_spec arithC a (Array.replicate n arithC.zero)
+  obtain ⟨i1, i2⟩ := fillIm_spec arithC b (fillRe arithC a (Array.replicate n arithC.zero))
+  rw [Array.size_replicate] at r1 r2
+  rw [r1] at i1 i2
+  refine ⟨i1, fun p hp => ?_⟩
+  rw [i2 p hp, r2 p hp, rdA_replicate]
+  unfold cz
+  by_cases ha : p < a.size <;> by_cases hb : p < b.size
+  · rw [if_pos hb, if_pos ha]
+    apply Complex.ext <;> simp [arithC]
+  · rw [if_neg hb, if_pos ha, getD_of_le b p (by omega)]
+    apply Complex.ext <;> simp [arithC]
+  · rw [if_pos hb, if_neg ha, getD_of_le a p (by omega)]
+    apply Complex.ext <;> simp [arithC]
+  · rw [if_neg hb, if_neg ha, getD_of_le a p (by omega), getD_of_le b p (by omega)]
+    simp [arithC]
+
+/-- transform of the integer convolution = product of the transforms -/
+theorem dft_convAt (ρ : ℂ) (n : ℕ) (a b : Array Int) (ha : a.size ≠ 0) (hb : b.size ≠ 0) (hn : a.size + b.size - 1 ≤ n) (k : ℕ) :
+    dft ρ n (cz a) k * dft ρ n (cz b) k = dft ρ n (fun u => ((convAt a b u : ℤ) : ℂ)) k := by
+  rw [dft_conv ρ n a.size b.size (by omega) (by omega) hn (cz a) (cz b) (cz_of_le a) (cz_of_le b) k]
+  apply dft_congr
+  intro u _
+  unfold convAt cz
+  rw [sumTo_eq_sum, Int.cast_sum]
+  apply sum_congr rfl
+  intro s _
+  split <;> simp
+
+/-- The unpacking step: from the transform of `a + i·b` to half the transform of the product. -/
+theorem unpackV_exact (m : ℕ) (a b : Array Int) (ha : a.size ≠ 0) (hb : b.size ≠ 0) (hn : a.size + b.size - 1 ≤ 2^m)
+    (q : ℕ) (hq : q < 2^m) :
+    unpackV arithC (2^m) (fun p => dft (zeta m) (2^m) (fun s => cz a s + I * cz b s) p) q
+      = dft (zeta m) (2^m) (fun u => ((convAt a b u : ℤ) : ℂ)) q / 2 := by
+  unfold unpackV
+  simp only [arithC]
+  rw [dft_lin, dft_lin, map_add, map_mul, conj_I]
+  have ca := dft_conj_int m (fun s => a.getD s 0) q hq
+  have cb := dft_conj_int m (fun s => b.getD s 0) q hq
+  change (starRingEnd ℂ) (dft (zeta m) (2^m) (cz a) (negIdx (2^m) q)) = dft (zeta m) (2^m) (cz a) q at ca
+  change (starRingEnd ℂ) (dft (zeta m) (2^m) (cz b) (negIdx (2^m) q)) = dft (zeta m) (2^m) (cz b) q at cb
+  rw [ca, cb, ← dft_convAt (zeta m) (2^m) a b ha hb hn q]
+  ring_nf
+  rw [I_sq]
+  ring
+
+
+theorem zeta_quarter (k : ℕ) : zeta (k+2) ^ (2^k) = I := by
+  unfold zeta
+  rw [← exp_nat_mul]
+  have h : ((2 : ℂ)^k) ≠ 0 := pow_ne_zero _ two_ne_zero
+  have : ((2^k : ℕ) : ℂ) * (2 * Real.pi * I / ((2^(k+2) : ℕ) : ℂ)) = Real.pi / 2 * I := by
+    push_cast
+    rw [pow_add]
+    field_simp
+  rw [this, exp_pi_div_two_mul_I]
+
+theorem fold_index (N m p : ℕ) (hN : 2 ≤ N) (hmN : m ≤ N) :
+    2^N - 2^N >>> 2 - 2^N / 2^m * p = 3 * 2^(N-2) - 2^(N-m) * p := by
+  rw [Nat.shiftRight_eq_div_pow, Nat.pow_div hmN (by omega), Nat.pow_div hN (by omega)]
+  have : 2^N = 4 * 2^(N-2) := by
+    rw [show (4 : Nat) = 2^2 from rfl, ← Nat.pow_add]; congr 1; omega
+  omega
+
+/-- the twiddle read by the folding loop times `ζ^p` is `-i` -/
+theorem foldTw (m p : ℕ) (hm : 1 ≤ m) (hp : p < 2^(m-1)) :
+    (wArr arithC (max m 2)).getD (2^(max m 2) - 2^(max m 2) >>> 2 - 2^(max m 2) / 2^m * p) arithC.zero * zeta m ^ p = -I := by
+  rw [fold_index (max m 2) m p (by omega) (by omega)]
+  by_cases h1 : m = 1
+  · subst h1
+    have : p = 0 := by simpa using hp
+    subst this
+    rw [show max 1 2 = 2 by rfl, getD_wArr arithC 2 _ (by norm_num), wC_eq 2 _ (by norm_num)]
+    have hq := zeta_quarter 0
+    simp only [Nat.zero_add, pow_zero, pow_one] at hq
+    simp only [Nat.sub_self, pow_zero, Nat.mul_zero, Nat.sub_zero, mul_one, hq]
+    rw [pow_succ, pow_two, I_mul_I]; ring
+  · have hm2 : 2 ≤ m := by omega
+    rw [show max m 2 = m by omega, Nat.sub_self, Nat.pow_zero, Nat.one_mul]
+    obtain ⟨k, rfl⟩ : ∃ k, m = k + 2 := ⟨m - 2, by omega⟩
+    have hp' : p < 2 * 2^k := by
+      have : 2^(k+2-1) = 2 * 2^k := by rw [show k + 2 - 1 = k + 1 by omega, pow_succ]; ring
+      omega
+    rw [show k + 2 - 2 = k by omega]
+    rw [getD_wArr arithC (k+2) _ (by rw [pow_add]; omega), wC_eq (k+2) _ (by rw [pow_add]; omega),
+      ← pow_add, Nat.sub_add_cancel (by omega), mul_comm 3, pow_mul, zeta_quarter]
+    rw [pow_succ, pow_two, I_mul_I]; ring
+
+/-- The folding step: from half the transform `C/2` of a sequence `x` of length `2^m` to the transform of length
+    `2^(m-1)` of `x[2t] + i·x[2t+1]`. -/
+theorem fold_exact (m : ℕ) (hm : 1 ≤ m) (x : ℕ → ℂ) (p : ℕ) (hp : p < 2^(m-1)) :
+    (dft (zeta m) (2^m) x p / 2 + dft (zeta m) (2^m) x (p + 2^(m-1)) / 2)
+      - (dft (zeta m) (2^m) x p / 2 - dft (zeta m) (2^m) x (p + 2^(m-1)) / 2)
+        * (wArr arithC (max m 2)).getD (2^(max m 2) - 2^(max m 2) >>> 2 - 2^(max m 2) / 2^m * p) arithC.zero
+    = dft (zeta (m-1)) (2^(m-1)) (fun t => x (2 * t) + I * x (2 * t + 1)) p := by
+  obtain ⟨k, rfl⟩ : ∃ k, m = k + 1 := ⟨m - 1, by omega⟩
+  simp only [Nat.add_sub_cancel] at hp ⊢
+  have hw := foldTw (k+1) p (by omega) (by simpa using hp)
+  set w := (wArr arithC (max (k+1) 2)).getD (2^(max (k+1) 2) - 2^(max (k+1) 2) >>> 2 - 2^(max (k+1) 2) / 2^(k+1) * p) arithC.zero
+  have h2 : 2^(k+1) = 2 * 2^k := by rw [pow_succ]; ring
+  have hτ : (zeta (k+1) ^ 2) ^ (2^k) = 1 := by rw [zeta_succ_sq, zeta_pow_two_pow]
+  have e1 := dft_split (zeta (k+1)) (2^k) x p
+  have e2 := dft_split (zeta (k+1)) (2^k) x (p + 2^k)
+  rw [dft_add_period _ _ hτ, dft_add_period _ _ hτ, pow_add, zeta_succ_half] at e2
+  rw [zeta_succ_sq] at e1 e2
+  rw [h2, e1, e2, dft_lin]
+  have hz := zeta_ne_zero (k+1)
+  have hwz : w = -I * (zeta (k+1) ^ p)⁻¹ := by
+    rw [← hw, mul_assoc, mul_inv_cancel₀ (pow_ne_zero _ hz), mul_one]
+  rw [hwz]
+  field_simp
+  ring
+
+
+theorem ceilPow2_ge : ∀ (d start len : Nat), len - start = d → 0 < start → len ≤ ceilPow2 start len := by
+  intro d
+  induction d using Nat.strongRecOn with
+  | _ d ih =>
+    intro start len hd hs
+    rw [ceilPow2]
+    by_cases h : start < len ∧ 0 < start
+    · rw [dif_pos h]
+      exact ih (len - start * 2) (by omega) (start * 2) len rfl (by omega)
+    · rw [dif_neg h]; omega
+
+theorem unpackV_congr (A : Arith ℂ) (n : ℕ) (x y : ℕ → ℂ) (q : ℕ) (h1 : x q = y q) (h2 : x (negIdx n q) = y (negIdx n q)) :
+    unpackV A n x q = unpackV A n y q := by
+  unfold unpackV; rw [h1, h2]
+
+theorem negIdx_lt (n q : ℕ) (hn : 0 < n) (hq : q < n) : negIdx n q < n := by
+  unfold negIdx; split <;> omega
+
+/-- the values produced by the forward transform, the unpacking loop and the folding loop of `multiply_into`,
+    in exact arithmetic: the length-`n/2` transform of `c[2t] + i·c[2t+1]`, `c` = the integer convolution -/
+theorem multiply_pipeline (m : ℕ) (hm : 1 ≤ m) (a b : Array Int) (ha : a.size ≠ 0) (hb : b.size ≠ 0)
+    (hn : a.size + b.size - 1 ≤ 2^m) :
+    let buf := fftRef arithC (m - 1) true
+      ((foldHalfRef arithC id m (unpack arithC (2^m) (fftRef arithC m false
+        (fillIm arithC b (fillRe arithC a (Array.replicate (2^m) arithC.zero)))))).extract 0 (2^(m-1)))
+    buf.size = 2^(m-1) ∧ ∀ q, q < 2^(m-1) →
+      rdA arithC buf q = ((convAt a b (2 * q) : ℤ) : ℂ) + I * ((convAt a b (2 * q + 1) : ℤ) : ℂ) := by
+  intro buf
+  have hn2 : 2^m = 2 * 2^(m-1) := by
+    obtain ⟨q, rfl⟩ : ∃ q, m = q + 1 := ⟨m - 1, by omega⟩
+    rw [Nat.pow_succ]; simp; omega
+  have hh : 0 < 2^(m-1) := Nat.two_pow_pos _
+  -- packed input
+  obtain ⟨p1, p2⟩ := packed_spec a b (2^m)
+  -- forward transform
+  obtain ⟨f1, f2⟩ := fftRef_dft m false _ p1
+  simp only [Bool.false_eq_true, if_false] at f2
+  have hF : ∀ p, p < 2^m → rdA arithC (fftRef arithC m false
+      (fillIm arithC b (fillRe arithC a (Array.replicate (2^m) arithC.zero)))) p
+      = dft (zeta m) (2^m) (fun s => cz a s + I * cz b s) p := by
+    intro p hp
+    rw [f2 p hp]
+    exact dft_congr _ _ _ _ p2 p
+  -- unpacking
+  obtain ⟨u1, u2⟩ := unpack_spec arithC m hm _ f1
+  let C := dft (zeta m) (2^m) (fun u => ((convAt a b u : ℤ) : ℂ))
+  have hV : ∀ q, q < 2^m → unpackV arithC (2^m) (rdA arithC (fftRef arithC m false
+      (fillIm arithC b (fillRe arithC a (Array.replicate (2^m) arithC.zero))))) q = C q / 2 := by
+    intro q hq
+    rw [unpackV_congr arithC (2^m) _ (fun p => dft (zeta m) (2^m) (fun s => cz a s + I * cz b s) p) q
+      (hF q hq) (hF _ (negIdx_lt _ _ (by omega) hq))]
+    exact unpackV_exact m a b ha hb hn q hq
+  have hCconj : ∀ j, j < 2^m → (starRingEnd ℂ) (C (negIdx (2^m) j) / 2) = C j / 2 := by
+    intro j hj
+    rw [map_div₀, dft_conj_int m (fun u => convAt a b u) j hj, map_ofNat]
+  have hU : ∀ p, p < 2^m → rdA arithC (unpack arithC (2^m) (fftRef arithC m false
+      (fillIm arithC b (fillRe arithC a (Array.replicate (2^m) arithC.zero))))) p = C p / 2 := by
+    intro p hp
+    rw [u2 p hp]
+    by_cases h0 : p = 0 ∨ p = 2^(m-1)
+    · rw [if_pos h0, hV p hp]
+      have hneg : negIdx (2^m) p = p := by
+        unfold negIdx; rcases h0 with rfl | rfl
+        · simp
+        · rw [if_neg (by omega)]; omega
+      have := hCconj p hp
+      rw [hneg] at this
+      exact this
+    · rw [if_neg h0]
+      by_cases hlt : p < 2^(m-1)
+      · rw [if_pos hlt, hV p hp]
+      · rw [if_neg hlt, hV (2^m - p) (by omega)]
+        have hneg : negIdx (2^m) p = 2^m - p := by unfold negIdx; rw [if_neg (by omega)]
+        have := hCconj p hp
+        rw [hneg] at this
+        exact this
+  -- folding
+  obtain ⟨g1, g2⟩ := foldHalf_spec arithC id (wArr arithC (max m 2)) (2^(max m 2)) m hm _ u1
+  have hG : ∀ p, p < 2^(m-1) → rdA arithC (foldHalfRef arithC id m (unpack arithC (2^m) (fftRef arithC m false
+      (fillIm arithC b (fillRe arithC a (Array.replicate (2^m) arithC.zero)))))) p
+      = dft (zeta (m-1)) (2^(m-1)) (fun t => ((convAt a b (2 * t) : ℤ) : ℂ) + I * ((convAt a b (2 * t + 1) : ℤ) : ℂ)) p := by
+    intro p hp
+    unfold foldHalfRef
+    rw [g2 p hp, hU p (by omega), hU (p + 2^(m-1)) (by omega)]
+    exact fold_exact m hm _ p hp
+  -- truncation
+  obtain ⟨x1, x2⟩ := extract_spec arithC (foldHalfRef arithC id m (unpack arithC (2^m) (fftRef arithC m false
+      (fillIm arithC b (fillRe arithC a (Array.replicate (2^m) arithC.zero)))))) (2^(m-1))
+      (by unfold foldHalfRef; rw [g1]; omega)
+  -- inverse transform
+  obtain ⟨i1, i2⟩ := fftRef_dft (m-1) true _ x1
+  refine ⟨i1, fun q hq => ?_⟩
+  rw [i2 q hq]
+  simp only [if_true]
+  rw [dft_congr _ _ _ (fun p => dft (zeta (m-1)) (2^(m-1))
+      (fun t => ((convAt a b (2 * t) : ℤ) : ℂ) + I * ((convAt a b (2 * t + 1) : ℤ) : ℂ)) p)
+      (fun p hp => by rw [x2 p hp, hG p hp]) q]
+  exact dft_inversion (m-1) _ q hq
 
 end ComplexInstance
 end Rlib.Fft
